@@ -717,6 +717,7 @@ func (ex *Exec) runPath(st *State) {
 func (ex *Exec) jump(st *State, to *ssa.BasicBlock) {
 	fr := st.Top()
 	from := fr.Block
+	ex.onEdge(st, fr, from, to)
 	fr.Prev = from
 	fr.Block = to
 	fr.Idx = 0
